@@ -219,6 +219,24 @@ partial def loop (h : IO.FS.Stream) (d : DS) : IO Unit := do
       let c1 := addReg (addTable (addOpen c0))
       let d := note (d.put { id, c := c1, unix := typ == "unix" }) id c0 c1 .nil
       say d "add" "nil" (some id)
+    | ["addc", id, typ] =>
+      -- the open notification closes the conn; addConn carries on: table, then a registration that fails (EBADF)
+      let id := id.toNat!
+      if (d.get id).isSome || !(typ == "tcp" || typ == "unix") then bad else
+      let c0 : Conn := { kind := .add }
+      let c1 := addOpen c0
+      let d := note (d.put { id, c := c1, unix := typ == "unix" }) id c0 c1 .nil
+      let d := closeE d id .nil
+      match d.get id with
+      | some e =>
+        let c2 := addReg (addTable e.c)
+        say (d.put { e with c := c2 }) "addc" (if c2.reg then "nil" else "ebadf") (some id)
+      | none => bad
+    | ["dialx", id] =>
+      -- epoll registration fails: DialAsync returns the error, which is the one report; nobody ever sees the conn
+      let id := id.toNat!
+      if (d.get id).isSome then bad else
+      say (d.put { id, c := { kind := .dial, dial := .done, dialN := 1, fdOpen := false } }) "dial" "eexist" none
     | ["addudp", id] =>
       let id := id.toNat!
       if (d.get id).isSome then bad else
